@@ -1,11 +1,17 @@
 """C19 implementation runner: drives asynq.mock.patch / patch.object over a fresh namespace per case.
 
 case = {"tks": [target kind...], "ps": [[target, replacement kind, behaviour]...], "api": ["patch"|"object"...],
-        "ops": [op...]}  with the op constructors of Mock.v (OEnter/OExit/OStart/OStop/OStopAll/OProbe).
+        "ops": [op...], "reuse": bool}  with the op constructors of Mock.v (OEnter/OExit/OStart/OStop/OStopAll/OProbe).
+"reuse" (default true): a patcher used as a decorator decorates ONE function / class, which is then called once per
+activation (false: a new function / class is decorated for every activation).
+Object identity: the object a patcher installs is {"ONew": [p, g]}; for a replacement that unittest.mock builds per
+activation (default mock, new_callable) g = number of earlier successful activations of p, otherwise 0.  Every such
+object carries its own body, so a call records WHICH activation's object it reached.
 Output: {"out": (per-op results, final own slot per target, #patches still registered as started),
          "obs": per-op observations for the monitors, "construct": per-patcher construction notes}
 """
 import asyncio
+import functools
 import sys
 import types
 from unittest import mock
@@ -47,7 +53,15 @@ def opname(o):
 def exn_id(e):
     if isinstance(e, AttributeError):
         return -19
+    if isinstance(e, TypeError):
+        return -1
+    if isinstance(e, RuntimeError):
+        return -9
     return {"Unexpected": [{"s": type(e).__name__}]}
+
+
+PER_ACTIVATION = ("RDefault", "RNcMock", "RNcObj", "RNcSlots", "RNcNonCallable", "RNcFrozen", "RNcType", "RNcRaiser")
+REFUSING = ("RNcSlots", "RNcFrozen", "RNcType", "RNcRaiser")
 
 
 def build_env(case):
@@ -78,7 +92,7 @@ def build_env(case):
             yield ConstFuture(None)
             rec = canon(a)
             env.calls.append(({"OOrig": [t]}, rec))
-            return ("ret", "orig", t, tuple(map(str, rec)))
+            return ("ret", "orig", [t], tuple(map(str, rec)))
         original.__name__ = "original%d" % t
         return original
 
@@ -134,13 +148,23 @@ def access_holder(env, t):
 
 def make_replacement(env, p, rk, beh):
     """returns (kwargs for patch(), given object or None)"""
-    def body(*a):
+    def gbody(g, *a):
+        """the code of the object made by activation g of patcher p (g = 0: the one explicit object)"""
         rec = env.canon(a)
-        env.calls.append(({"ONew": [p]}, rec))
+        env.calls.append(({"ONew": [p, g]}, rec))
         if beh == "BRaise":
-            raise VErr(p)
-        return ("ret", "new", p, tuple(map(str, rec)))
-    env.bodies[p] = body
+            raise VErr([p, g])
+        return ("ret", "new", [p, g], tuple(map(str, rec)))
+    env.bodies[p] = gbody
+
+    def body(*a):
+        return gbody(0, *a)
+
+    def gen_of(o):
+        for g, x in enumerate(env.installed.get(p, [])):
+            if x is o:
+                return g
+        return -1           # an object that was never handed out by a successful activation
 
     def plain(*a):
         return body(*a)
@@ -151,21 +175,29 @@ def make_replacement(env, p, rk, beh):
 
     class CallableObj(object):
         def __call__(self, *a):
-            return body(*a)
+            return gbody(gen_of(self) if rk in PER_ACTIVATION else 0, *a)
 
-    if p % 2 or rk == "RNcSlots":
-        class SlotsObj(object):
-            __slots__ = ()
+    class SlotsCallable(object):
+        __slots__ = ()
 
-            def __call__(self, *a):
-                return body(*a)
-    else:
-        class SlotsObj(object):      # like a Cython cdef class: TypeError
-            def __setattr__(self, k, v):
-                raise TypeError("cannot set %r" % k)
+        def __call__(self, *a):
+            return gbody(gen_of(self) if rk in PER_ACTIVATION else 0, *a)
 
-            def __call__(self, *a):
-                return body(*a)
+    class FrozenCallable(object):      # like a Cython cdef class: TypeError
+        def __setattr__(self, k, v):
+            raise TypeError("cannot set %r" % k)
+
+        def __call__(self, *a):
+            return gbody(gen_of(self) if rk in PER_ACTIVATION else 0, *a)
+
+    class RaisingCallable(object):     # a __setattr__ with its own exception class
+        def __setattr__(self, k, v):
+            raise RuntimeError("attributes are frozen: %r" % k)
+
+        def __call__(self, *a):
+            return gbody(gen_of(self), *a)
+
+    SlotsObj = SlotsCallable if p % 2 else FrozenCallable
 
     if rk == "RDefault":
         return {}, None
@@ -199,7 +231,14 @@ def make_replacement(env, p, rk, beh):
     if rk == "RNcObj":
         return {"new_callable": lambda: CallableObj()}, None
     if rk == "RNcSlots":
-        return {"new_callable": lambda: SlotsObj()}, None
+        return {"new_callable": lambda: SlotsCallable()}, None
+    if rk == "RNcFrozen":
+        return {"new_callable": lambda: FrozenCallable()}, None
+    if rk == "RNcType":
+        # an immutable builtin type is callable and rejects attribute assignment with TypeError
+        return {"new_callable": lambda: (dict, int, frozenset)[p % 3]}, None
+    if rk == "RNcRaiser":
+        return {"new_callable": lambda: RaisingCallable()}, None
     if rk == "RNcNonCallable":
         return {"new_callable": mock.NonCallableMock}, None
     raise ValueError(rk)
@@ -249,7 +288,9 @@ def run_case(c):
         construct_notes.append(note)
     res = [None] * len(ops)
     obs = [None] * len(ops)
-    default_like = ("RDefault", "RNcMock", "RNcObj", "RNcSlots", "RNcNonCallable")
+    default_like = PER_ACTIVATION
+    reuse = c.get("reuse", True)
+    decorated = {}
 
     def ident(o):
         if o is ABSENT:
@@ -258,8 +299,9 @@ def run_case(c):
             if o is x:
                 return {"Some": [{"OOrig": [t]}]}
         for p in sorted(env.installed, reverse=True):
-            if any(o is x for x in env.installed[p]):
-                return {"Some": [{"ONew": [p]}]}
+            for g, x in enumerate(env.installed[p]):
+                if o is x:
+                    return {"Some": [{"ONew": [p, g if specs[p][1] in PER_ACTIVATION else 0]}]}
         return {"Unknown": [{"s": type(o).__name__}]}
 
     def own_slots():
@@ -272,7 +314,7 @@ def run_case(c):
         env.installed.setdefault(p, []).append(m)   # a DEFAULT patcher makes a new mock per activation
         rk = specs[p][1]
         if rk in ("RDefault", "RNcMock"):
-            m.side_effect = env.bodies[p]
+            m.side_effect = functools.partial(env.bodies[p], len(env.installed[p]) - 1)
 
     def probe(k, t, args):
         name = env.names[t]
@@ -318,7 +360,7 @@ def run_case(c):
             o["convs"].append({"conv": cname, "calls": calls, "outcome": outcome})
             if len(calls) == 1:
                 who, rec = calls[0]
-                wid = list(who.values())[0][0]
+                wid = list(who.values())[0]
                 wtag = "orig" if "OOrig" in who else "new"
                 if outcome[0] == "ret" and outcome[1] == ["ret", wtag, wid, [str(x) for x in rec]]:
                     cs.append({"CReached": [who, rec, "BRet"]})
@@ -401,7 +443,7 @@ def run_case(c):
             if opname(ops[j2])[1][2] != opname(ops[j])[1][2] or opname(ops[j2])[1][0] != a[0]:
                 break
             chain.append((k2, j2, a[0]))
-        if any(specs[p][1] == "RNcSlots" for _, _, p in chain) or len(set(p for _, _, p in chain)) != len(chain):
+        if any(specs[p][1] in REFUSING for _, _, p in chain) or len(set(p for _, _, p in chain)) != len(chain):
             return chain[:1]
         return chain
 
@@ -468,19 +510,35 @@ def run_case(c):
                         k = j + 1
                         continue
 
-                    def enter_fn(body, pt=pt, dl=dl):
-                        def fn(*margs):
-                            body(margs[-1] if dl else pt.new)
-                        pt(fn)()
-                elif sty == "SDecorCls":
-                    def enter_fn(body, pt=pt, dl=dl):
-                        class T(object):
-                            def test_it(self, *margs):
-                                body(margs[-1] if dl else pt.new)
+                    def enter_fn(body, pt=pt, dl=dl, p=p):
+                        # one decorated function per patcher, called once per activation (decorate_callable
+                        # keeps the patcher in fn.patchings); with reuse=false a new function each time
+                        if not reuse or (p, "fn") not in decorated:
+                            cell = {}
 
-                            def helper(self):
-                                return None
-                        pt(T)().test_it()
+                            def fn(*margs):
+                                cell["body"](margs[-1] if dl else pt.new)
+                            decorated[(p, "fn")] = (pt(fn), cell)
+                        f, cell = decorated[(p, "fn")]
+                        cell["body"] = body
+                        f()
+                elif sty == "SDecorCls":
+                    def enter_fn(body, pt=pt, dl=dl, p=p):
+                        # decorate_class installs a copy() of the patcher on every test_ method; calling the
+                        # method again re-activates that copy
+                        if not reuse or (p, "cls") not in decorated:
+                            cell = {}
+
+                            class T(object):
+                                def test_it(self, *margs):
+                                    cell["body"](margs[-1] if dl else pt.new)
+
+                                def helper(self):
+                                    return None
+                            decorated[(p, "cls")] = (pt(T), cell)
+                        T2, cell = decorated[(p, "cls")]
+                        cell["body"] = body
+                        T2().test_it()
                 else:
                     raise ValueError(sty)
                 block(k, j, enter_fn)
